@@ -1911,6 +1911,10 @@ class _GroupElem(ABC):
 
             n_f = Normalize(np.cross(i_f, j_f, 1, 1))
 
+            # outward normals whatever the numbering orientation of the element (e.g. a mirrored mesh)
+            inward_f = np.einsum("fi,fi->f", coord.mean(0) - coord[p0_f], n_f) > 0
+            n_f[inward_f] *= -1
+
             coordinates_n_i = coordinates_n[:, np.newaxis].repeat(Nface, 1)
 
             v_f = coordinates_n_i - coord[p0_f]
